@@ -8,7 +8,7 @@
    and C01 (instructions: 2 + 2 * extension words), and checked on every chunk of every real run by the
    hook-trace correspondence (tools/props/c02.py). *)
 From Coq Require Import List ZArith Bool.
-From Verif Require Import Model.Block Proofs.BlockP.
+From Verif Require Import Model.Block Proofs.BlockP Model.Directives Proofs.BlockDirectives.
 Import ListNotations.
 Open Scope Z_scope.
 
@@ -57,6 +57,19 @@ Theorem C02_flat_recurrence_is_model :
     map fst (place_list start (map to_stmt l)) ++ [start + adv_list (map to_stmt l)].
 Proof. exact flat_block_addrs_spec. Qed.
 Print Assumptions C02_flat_recurrence_is_model.
+
+(* composed with C06: a block made of the data directives of Model/Directives.v (size lambdas regenerated
+   from metacommands.py), laid out as compile_block does with any mix of immediate and deferred
+   statements, needs no hypothesis at all: announced = produced is C06's announce_eq_emit *)
+Theorem C02_directive_block_invariant :
+  forall enc ds a l, build enc a ds = Some l ->
+  (forall pre a' bs post, place_list a l = (pre ++ (a', bs) :: post)%list ->
+      a' = a + zlen (bytes_of pre) /\
+      out_list l = (bytes_of pre ++ bs ++ bytes_of post)%list /\
+      firstn (length bs) (skipn (Z.to_nat (a' - a)) (out_list l)) = bs) /\
+  adv_list l = zlen (out_list l).
+Proof. exact directive_block_invariant. Qed.
+Print Assumptions C02_directive_block_invariant.
 
 (* non-vacuity: a block with a deferred sized statement, an unsized one, a label, a nested repeat *)
 Example C02_example :
